@@ -182,6 +182,7 @@ type State struct {
 	Epoch     int
 	LastNow   *smt.Term
 	NoSched   bool
+	noSchedStep int
 	NeedSched bool
 	PoolReuse bool
 	YieldFrom int
@@ -224,7 +225,7 @@ func (st *State) fork() *State {
 	n := &State{
 		id: stateSeq, nextObj: st.nextObj, Cur: st.Cur,
 		Steps: st.Steps, SymBr: st.SymBr, PanicLbl: st.PanicLbl, Depth: st.Depth, Preempts: st.Preempts,
-		LastNow: st.LastNow, Epoch: st.Epoch, NoSched: st.NoSched, NeedSched: st.NeedSched, PoolReuse: st.PoolReuse, YieldFrom: st.YieldFrom, TimerFired: st.TimerFired, VisibleAtomics: st.VisibleAtomics, ConcreteClock: st.ConcreteClock, ClockTick: st.ClockTick,
+		LastNow: st.LastNow, Epoch: st.Epoch, NoSched: st.NoSched, noSchedStep: st.noSchedStep, NeedSched: st.NeedSched, PoolReuse: st.PoolReuse, YieldFrom: st.YieldFrom, TimerFired: st.TimerFired, VisibleAtomics: st.VisibleAtomics, ConcreteClock: st.ConcreteClock, ClockTick: st.ClockTick,
 		Watched: st.Watched[:len(st.Watched):len(st.Watched)], WatchAll: st.WatchAll,
 	}
 	// the parent also needs a new id so that neither mutates shared objects in place
